@@ -289,3 +289,94 @@ Example C03_checker_bridge_functions_nonvacuous :
   checker_bridge_ok BrFnEx.cfg BrFnEx.ex_ok = true /\ checker_bridge_ok BrFnEx.cfg BrFnEx.ex_bad = true /\
   no_function BrFnEx.ex_ok = false.
 Proof. exact checker_bridge_ok_functions. Qed.
+
+(* ------------------------------------------------------------------------------------------------------------------
+   CAPSTONES: both halves restated over the REGENERATED checker only (Bridge/BrCapstoneC03.v composes C03_rejects,
+   C03_first_error_location, C03_sound_partial, C03_cast with C03_model_checker_is_source_rules; the hand model
+   Checker.check no longer occurs in the statements).
+     gen_check c checker_src e = Some (t, e', st)   the interpretation of checker/checker.go + checker/types.go as regenerated
+                                                    into gen/GenChecker.v reports type t, re-annotated tree e', first error st
+   Reference side: Sem.eval, has_ty / res_ok, ill_typed_top / first_fault, cast_post.  Hypotheses: the bridge's decidable
+   condition checker_bridge_ok c e, the carve-out in_scope and the environment assumptions of C03_sound_partial. *)
+Require Import X.Bridge.BrCapstoneC03.
+
+Theorem C03_source_check_total : forall c e, checker_bridge_ok c e = true ->
+  exists t e' st, gen_check c checker_src e = Some (t, e', st).
+Proof. exact src_check_total. Qed.
+
+(* a single fault at ANY position (ill_typed_ref is closed under every enclosing node kind), or in the kind of the result
+   under a directive, is rejected by the regenerated checker *)
+Theorem C03_source_rejects : forall c e, checker_bridge_ok c e = true -> ill_typed_top c e ->
+  exists t e' l k, gen_check c checker_src e = Some (t, e', Some (l, k)).
+Proof. exact src_rejects. Qed.
+
+Theorem C03_source_first_error_location : forall c e l, checker_bridge_ok c e = true -> first_fault c [] e l ->
+  exists t e' k, gen_check c checker_src e = Some (t, e', Some (l, k)) \/
+                 (cc_expect c <> None /\ gen_check c checker_src e = Some (t, e', Some (noloc, CExpect))).
+Proof. exact src_first_error_location. Qed.
+
+Theorem C03_source_first_error_location_plain : forall c e l, checker_bridge_ok c e = true -> cc_expect c = None ->
+  first_fault c [] e l -> exists t e' k, gen_check c checker_src e = Some (t, e', Some (l, k)).
+Proof. exact src_first_error_location_plain. Qed.
+
+(* a tree the regenerated checker accepts, inside checker_bridge_ok and in_scope, evaluates to a value of the reported
+   type or fails with a non-type failure *)
+Theorem C03_source_sound_partial :
+  forall (c : cconfig) (perm : TypesTable.table -> TypesTable.table),
+  (forall l, Permutation (perm l) l) -> wf_tenv (cc_te c) = true ->
+  forall ftab nn fe cfg env T sn, c_mapenv cfg = false -> env_ok c perm ftab nn T sn env -> fenv_ok (cc_te c) ftab nn fe ->
+  forall e t e', checker_bridge_ok c e = true -> gen_check c checker_src e = Some (t, e', None) -> in_scope c nn e = true ->
+  forall s, res_ok (cc_te c) ftab nn t (Sem.eval fe cfg env [] e' s).
+Proof. exact src_sound_partial. Qed.
+
+Theorem C03_source_cast :
+  forall (c : cconfig) (perm : TypesTable.table -> TypesTable.table),
+  (forall l, Permutation (perm l) l) -> wf_tenv (cc_te c) = true ->
+  forall ftab nn fe cfg env T sn, c_mapenv cfg = false -> env_ok c perm ftab nn T sn env -> fenv_ok (cc_te c) ftab nn fe ->
+  forall e t e' k, checker_bridge_ok c e = true -> gen_check c checker_src e = Some (t, e', None) -> in_scope c nn e = true ->
+  cc_expect c = Some k -> cast_scope k t = true ->
+  match run_ref fe cfg env (cast_of (Some k)) e' with
+  | Done v _ => cast_post k v
+  | Stop er _ _ => is_type_err er = false
+  end.
+Proof. exact src_cast. Qed.
+
+(* without in_scope the statement is false of the regenerated checker: each of the eleven finding witnesses is inside
+   checker_bridge_ok, outside in_scope, accepted by the regenerated checker and refutes the full statement *)
+Definition C03_source_sound_full_statement : Prop := src_sound_full_statement.
+Theorem C03_source_sound_full_statement_refuted :
+  finding_witness SWit.w_literal_retype /\ finding_witness SWit.w_named_int /\ finding_witness SWit.w_nilsafe_on_slice /\
+  finding_witness SWit.w_cond_branch /\ finding_witness SWit.w_index_key /\ finding_witness SWit.w_slice_of_map /\
+  finding_witness SWit.w_builtin_elem /\ finding_witness SWit.w_pointer_operand /\ finding_witness SWit.w_map_key /\
+  finding_witness SWit.w_nil_argument /\ finding_witness SWit.w_nil_struct_pointer.
+Proof. exact src_sound_full_statement_refuted. Qed.
+Theorem C03_source_finding_witness_unfold : forall e,
+  finding_witness e <-> (checker_bridge_ok SWit.c e = true /\ in_scope SWit.c false e = false /\ ~ C03_source_sound_full_statement).
+Proof. exact (fun e => iff_refl _). Qed.
+
+Definition C03_source_capstones :=
+  (C03_source_check_total, C03_source_rejects, C03_source_first_error_location, C03_source_first_error_location_plain,
+   C03_source_sound_partial, C03_source_cast, C03_source_sound_full_statement_refuted).
+Print Assumptions C03_source_capstones.
+
+(* non-vacuity: ALL hypotheses of C03_source_sound_partial at once on I + 2 * F > 1.0 ? count(AI, {# > I}) : len(S)
+   (bridge condition, in scope, accepted by the regenerated checker with type int, evaluates to 2); the theorem applied;
+   and the two located faults reported by the regenerated checker *)
+Example C03_source_sound_hypotheses_hold :
+  (forall l, Permutation (perm_id l) l) /\ wf_tenv (cc_te SWit.c) = true /\ c_mapenv SWit.cfg = false /\
+  env_ok SWit.c perm_id SWit.ftab false (TStruct "Env") "Env" SWit.env /\ fenv_ok (cc_te SWit.c) SWit.ftab false SWit.fe /\
+  checker_bridge_ok SWit.c SWit.ex_mixed = true /\ in_scope SWit.c false SWit.ex_mixed = true /\
+  exists e', gen_check SWit.c checker_src SWit.ex_mixed = Some (TNum KInt, e', None) /\
+             exists s, Sem.eval SWit.fe SWit.cfg SWit.env [] e' rs0 = Done (vint 2) s.
+Proof. exact src_sound_hypotheses_hold. Qed.
+
+Example C03_source_sound_applied : exists e', gen_check SWit.c checker_src SWit.ex_mixed = Some (TNum KInt, e', None) /\
+  forall s, res_ok (cc_te SWit.c) SWit.ftab false (TNum KInt) (Sem.eval SWit.fe SWit.cfg SWit.env [] e' s).
+Proof. exact src_sound_applied. Qed.
+
+Example C03_source_first_error_location_nonvacuous :
+  checker_bridge_ok SWit.c LWit.e_inner = true /\ first_fault SWit.c [] LWit.e_inner (1%Z, 6%Z) /\
+  (exists t e', gen_check SWit.c checker_src LWit.e_inner = Some (t, e', Some ((1%Z, 6%Z), CMismatch2))) /\
+  checker_bridge_ok SWit.c LWit.e_closure = true /\ first_fault SWit.c [] LWit.e_closure (1%Z, 11%Z) /\
+  (exists t e', gen_check SWit.c checker_src LWit.e_closure = Some (t, e', Some ((1%Z, 11%Z), CTooMany))).
+Proof. exact src_first_error_location_nonvacuous. Qed.
